@@ -2,10 +2,8 @@
    (any from_str, any finish hook): these are statements about all programs a user can plug in. *)
 Load "coq/props/Hdr".
 From PM Require Import C14 Assemble.
-Lemma src_rt : rt_ok cfg. Proof. apply conds_rt_ok. vm_compute. reflexivity. Qed.
-Lemma src_tbl : tbl_ok cfg. Proof. apply conds_tbl_ok. vm_compute. reflexivity. Qed.
-Lemma src_cfg_ok : cfg_ok cfg. Proof. exact (rt_cfg _ src_rt). Qed.
-Ltac sc := sidecond_with src_rt src_tbl.
+Lemma src_rt : rt_ok cfg. Proof. prove_rt. Qed.
+Lemma src_cfg_ok : cfg_ok cfg. Proof. sc. Qed.
 Theorem C14_log_erases : forall (T E : Type) (sh : shape T E) s, snd (parse_w cfg sh s) = parse cfg sh s.
 Proof. intros T E sh. apply C14_erase. Qed.
 Print Assumptions C14_log_erases.
